@@ -172,15 +172,16 @@ def main(argv):
             scale = max(max(abs(v) for v in x1) * abs(a), max(abs(v) for v in x2) * abs(b), max(abs(v) for v in x3), 1e-300)
             err = max(abs(v3 - (a * v1 + b * v2)) for v1, v2, v3 in zip(x1, x2, x3)) / scale
             stats["worst_superposition_error"] = max(stats["worst_superposition_error"], err)
-            if err > 1e-7:
+            if not (err <= 1e-7):
                 k = max(range(len(x3)), key=lambda i: abs(x3[i] - (a * x1[i] + b * x2[i])))
                 ck.violation("superposition:" + fname, "%s: node %d of the combined run holds %s, a*X1+b*X2 = %s (a=%g, b=%g; relative deviation %.3g)"
                              % (fname, k, x3[k], a * x1[k] + b * x2[k], a, b, err),
                              dict(formulation=fname, a=a, b=b, S1=e1, S2=e2, files=runs["s3"][0].files()))
             stats["zero_runs"] += 1
             zscale = max(max(abs(v) for v in x1), max(abs(v) for v in x2), 1e-300)
-            if max(abs(v) for v in xz) > 1e-9 * zscale:
-                ck.violation("zero-excitation:" + fname, "%s: zero excitation gives max |field| = %.3g" % (fname, max(abs(v) for v in xz)),
+            zbad = [v for v in xz if not (abs(v) <= 1e-9 * zscale)]        # (a NaN is not <= anything)
+            if zbad:
+                ck.violation("zero-excitation:" + fname, "%s: zero excitation gives a field of %s at %d of %d nodes" % (fname, zbad[0], len(zbad), len(xz)),
                              dict(formulation=fname, files=runs["zero"][0].files()))
         # ---- reciprocity: electrostatics / heat conductors, magnetics mutual linkage
         for t, (kind, axi) in enumerate([("e", False), ("e", True), ("h", False), ("m", False), ("m", True)]):
@@ -333,7 +334,7 @@ def main(argv):
             ck.case(("vanishing-frequency", axi, lam, t), nontrivial=True)
             sc = max(max(abs(v) for v in xs), 1e-300)
             err = max(abs(h - s) for h, s in zip(xh, xs)) / sc
-            if err > 1e-5:
+            if not (err <= 1e-5):
                 if lam == "lam0":
                     key = "vanishing-frequency:lamfill-zero-thickness"
                 elif lam:
